@@ -99,12 +99,17 @@ Definition with_fun (s : pstate) (f : edfun) := mkP (kind s) (vals s) (pol s) f 
 Definition with_geom (s : pstate) (a : bool) (g : option (list (Q * Q))) :=
   mkP (kind s) (vals s) (pol s) (efun s) a g.
 
-Inductive res := ROk | RValue | RAttr.
-Definition res_code (r : res) : Z := match r with ROk => 0 | RValue => 1 | RAttr => 2 end.
+Inductive res := ROk | RValue | RAttr | RZero.      (* RZero = ZeroDivisionError *)
+Definition res_code (r : res) : Z := match r with ROk => 0 | RValue => 1 | RAttr => 2 | RZero => 3 end.
 
 Inductive pop :=
 | PSet (f : fld) (v : Q)              (* obj.<property> = v *)
-| PSetPol (p : vec).                  (* obj.set_polarization(Vector3D(p)) *)
+| PSetPol (p : vec)                   (* obj.set_polarization(Vector3D(p)) *)
+| PAttach.                            (* laser.laser_profile = obj   (again, on the same Laser node) *)
+
+(* Vector3D.normalise raises ZeroDivisionError for the zero vector *)
+Definition vec_is_zero (p : vec) : bool :=
+  let '(x, y, z) := p in Qeq_bool (x * x + y * y + z * z) 0.
 
 Section WithC.
 Variable c : Q.                        (* SPEED_OF_LIGHT *)
@@ -151,7 +156,8 @@ Definition guarded (k : pkind) (f : fld) : bool :=
 
 Definition step (s : pstate) (o : pop) : pstate * res :=
   match o with
-  | PSetPol p => (with_pol s p, ROk)
+  | PSetPol p => (with_pol s p, ROk)       (* for a non-zero vector, see [pstep] *)
+  | PAttach => (attach s, ROk)             (* listener removed and added again, configure_geometry() *)
   | PSet f v =>
       if negb (has_field (kind s) f) then (s, RAttr)
       else if guarded (kind s) f && Qle_bool v 0 then (s, RValue)
@@ -169,10 +175,18 @@ Definition step (s : pstate) (o : pop) : pstate * res :=
         end
   end.
 
+(* a public call: set_polarization normalises its argument first (value.normalise()), which raises
+   for the zero vector before anything is assigned *)
+Definition pstep (s : pstate) (o : pop) : pstate * res :=
+  match o with
+  | PSetPol p => if vec_is_zero p then (s, RZero) else step s o
+  | _ => step s o
+  end.
+
 Fixpoint run (s : pstate) (ops : list pop) : pstate * list res :=
   match ops with
   | [] => (s, [])
-  | o :: t => let (s1, r) := step s o in let (s2, rs) := run s1 t in (s2, r :: rs)
+  | o :: t => let (s1, r) := pstep s o in let (s2, rs) := run s1 t in (s2, r :: rs)
   end.
 
 (* ---- constructors: the raw assignments of __init__, then its setter calls in source order ---- *)
@@ -209,12 +223,16 @@ Fixpoint run_init (s : pstate) (ops : list pop) : option pstate :=
   end.
 
 (* Class(args) followed by laser.laser_profile = obj; None = the constructor raised *)
-Definition construct (k : pkind) (a : pargs) : option pstate :=
+Definition construct0 (k : pkind) (a : pargs) : option pstate :=
   let s0 := mkP k (raw_vals k (a_vals a)) (0, 0, 0) FUnset false None in
   match run_init s0 (init_ops k a) with
   | Some s => Some (attach s)
   | None => None
   end.
+
+(* every constructor hands its polarization argument to set_polarization: a zero vector raises *)
+Definition construct (k : pkind) (a : pargs) : option pstate :=
+  if vec_is_zero (a_pol a) then None else construct0 k a.
 
 (* the constructor arguments that reproduce the object's current reported parameters *)
 Definition args_of (s : pstate) : pargs := mkA (vals s) (pol s).
